@@ -58,7 +58,8 @@ func readImports(r Reader, cat Catalog) ([]SharedSymbolTable, error) {
 			return nil, err
 		}
 
-		if val != nil && val.LocalSID == 3 {
+		// The symbol may arrive as $3, as $ion_symbol_table or quoted; what counts is its text.
+		if val != nil && (val.LocalSID == 3 || (val.Text != nil && *val.Text == "$ion_symbol_table")) {
 			// Special case that imports the current local symbol table.
 			if r.SymbolTable() == nil || r.SymbolTable() == V1SystemSymbolTable {
 				return nil, nil
